@@ -19,6 +19,8 @@ type IfUnless struct {
 	ifNarrowTs map[string][]base.T
 	// narrowTs as the conditions of the earlier branches left it
 	earlierNarrowTs map[string][]base.T
+	// unless a && b: what a variable can be when every test so far holds
+	chainHoldTs map[string][]base.T
 	// classes the tests of the current condition exclude from a variable
 	// (!x.nil?, or x.nil? under unless); ifNarrowTs holds the admitted ones
 	ifExcludeTs map[string][]base.T
@@ -76,6 +78,63 @@ func (i *IfUnless) setConditionalCtx(
 
 	if _, ok := i.originalTs[object]; !ok {
 		i.originalTs[object] = append(i.originalTs[object], currentT)
+	}
+
+	// unless a && b: the body is left alone; the else branch is where every
+	// test holds. What holds for a variable is kept per test and handed to
+	// the else branch through narrowTs (its complement is what narrowing()
+	// assigns there)
+	if !isBodyNarrowed {
+		if skipNarrow {
+			return nil
+		}
+
+		flatten := func(t base.T) []base.T {
+			if t.IsUnionType() {
+				return t.GetVariants()
+			}
+
+			return []base.T{t}
+		}
+
+		holdTs, ok := i.chainHoldTs[object]
+		if !ok {
+			holdTs = flatten(currentT)
+		}
+
+		var nextHoldTs []base.T
+
+		for _, v := range holdTs {
+			isSameClass := v.GetObjectClass() == classT.GetObjectClass()
+
+			// x.is_a?(C) keeps C, !x.is_a?(C) drops it
+			if isSameClass != isExclamation {
+				nextHoldTs = append(nextHoldTs, v)
+			}
+		}
+
+		i.chainHoldTs[object] = nextHoldTs
+
+		excludedTs := append([]base.T{}, i.earlierNarrowTs[object]...)
+
+		for _, v := range flatten(i.originalTs[object][0]) {
+			isHeld := false
+
+			for _, h := range nextHoldTs {
+				if h.GetObjectClass() == v.GetObjectClass() {
+					isHeld = true
+					break
+				}
+			}
+
+			if !isHeld {
+				excludedTs = append(excludedTs, v)
+			}
+		}
+
+		i.narrowTs[object] = excludedTs
+
+		return nil
 	}
 
 	switch isNarrow {
@@ -251,6 +310,7 @@ func (i *IfUnless) getBackupContext(
 
 	i.isAndChain = i.hasAndInCondition(p)
 
+	i.chainHoldTs = make(map[string][]base.T)
 	i.earlierNarrowTs = make(map[string][]base.T)
 	for object, narrowTs := range i.narrowTs {
 		i.earlierNarrowTs[object] = append([]base.T{}, narrowTs...)
